@@ -11,7 +11,7 @@ from ..dectree import decide
 from ..envelopes import ENVELOPE_CLASSES, envelope_call
 from ..model import AnalysisError, ClassInfo, FuncInfo, Project, call_name, kwarg, walk_local
 from ..models import ModelTable
-from ..paths import PState, PathAnalysis, run_paths, subst_text
+from ..paths import PState, PathAnalysis, relevance_filter, run_paths, subst_text
 from ..report import Report
 
 SHAPES = {
@@ -98,7 +98,9 @@ def check(P: Project, R: Report) -> None:
             return None
 
         try:
-            run_paths(f.node, event_of=cev, stmt_event_of=sev, fallible=True)
+            seeds = [v for d in dicts for k, v in zip(d.keys, d.values) if isinstance(k, ast.Constant) and k.value == "id"]
+            seeds += [a for c in calls for a in list(c.args) + [k.value for k in c.keywords]]
+            run_paths(f.node, event_of=cev, stmt_event_of=sev, fallible=True, lit_filter=relevance_filter(f.node, seeds))
         except AnalysisError:
             raise
         for d in dicts:
